@@ -471,6 +471,11 @@ def aggregate(prop, plans, results, report, known):
             if rerun is not None:
                 extra["digest"] = rerun["digest"]
         path = common.write_replay(prop, plan, v, extra)
+        if extra.get("reproduced_in_fresh_child") is False:
+            # every run is a pure function of its plan: a verdict that its own replay does not reproduce is a defect
+            # of the harness (state leaking between runs of one process), never a statement about the code under test
+            report.harness(f"a violation ({v['oracle']}: {v['signature'][:100]}) did not reproduce from its replay {path}")
+            continue
         report.violation(path)
         agg["violating"].append({"signature": v["signature"], "oracle": v["oracle"], "replay": path})
     return agg
